@@ -119,6 +119,10 @@ def repair_cex(m, name, codes, start, k, chk_codes=None, has_indel=True, heap_si
     c = {"kind": "repair", "graph": name, "strand": oracles.model_string(m, codes), "start": start if isinstance(start, int) else m.eval(start, model_completion=True).as_long(),
          "k": k, "vt_check": (oracles.model_string(m, chk_codes) if chk_codes is not None else None), "has_indel": has_indel, "heap_size": heap_size}
     c["warmup"] = warm_mode(c["strand"], c["start"])
+    try:
+        c["rows"] = graph_by_name(name)[1]
+    except KeyError:
+        pass
     c.update(kw)
     return c
 
